@@ -224,6 +224,10 @@ impl Fam {
         let spare_f: i64 = if spare_on && n_imp_f >= 1 && funcs.len() >= 2 { funcs[0] } else { -9 };
         let spare_g: i64 = if spare_on && n_imp_g >= 2 { globs[0] } else { -9 }; // (gg / doff / eoff use the LAST imported global)
         let spare_m: i64 = if spare_on && n_imp_m >= 1 && mems.len() >= 2 { mems[0] } else { -9 };
+        // ... and so does the LAST local entity of a space when there are at least two locals (a clean deletion at
+        // the tail: nothing moves, exactly one entity must disappear)
+        let spare_lf: i64 = if spare_on && lf >= 2 { funcs[funcs.len() - 1] } else { -9 };
+        let spare_lm: i64 = if spare_on && lm >= 2 { mems[mems.len() - 1] } else { -9 };
         let has_data = feat(shape, "data") && !mems.is_empty();
         // function bodies
         for j in 0..lf {
@@ -237,7 +241,7 @@ impl Fam {
                 s
             };
             for (i, &t) in funcs.iter().enumerate() {
-                if t == spare_f {
+                if t == spare_f || t == spare_lf {
                     continue;
                 }
                 let s = site(&mut fam, &mut sites, "f", t, "call");
@@ -263,7 +267,7 @@ impl Fam {
                 }
             }
             for (i, &t) in mems.iter().enumerate() {
-                if t == spare_m {
+                if t == spare_m || t == spare_lm {
                     continue;
                 }
                 let s = site(&mut fam, &mut sites, "m", t, "mem_load");
@@ -272,7 +276,7 @@ impl Fam {
                     {
                         // memory.copy carries two memory indices: one site per index (dst first)
                         for (j, &t2) in mems.iter().enumerate() {
-                            if t2 == spare_m {
+                            if t2 == spare_m || t2 == spare_lm {
                                 continue;
                             }
                             let s1 = site(&mut fam, &mut sites, "m", t, "mem_copy_dst");
@@ -346,7 +350,7 @@ impl Fam {
         }
         if exports {
             for (i, &t) in funcs.iter().enumerate() {
-                if t == spare_f {
+                if t == spare_f || t == spare_lf {
                     continue;
                 }
                 let nm = format!("ef{}", t);
@@ -366,7 +370,7 @@ impl Fam {
                 w += &format!("  (export \"{}\" (global {}))\n", nm, i);
             }
             for (i, &t) in mems.iter().enumerate() {
-                if t == spare_m {
+                if t == spare_m || t == spare_lm {
                     continue;
                 }
                 let nm = format!("em{}", t);
@@ -414,7 +418,7 @@ impl Fam {
         if has_data {
             w += "  (data \"P\")\n";
             for (i, &t) in mems.iter().enumerate() {
-                if t == spare_m {
+                if t == spare_m || t == spare_lm {
                     continue;
                 }
                 let s = fam.fresh_site();
